@@ -570,73 +570,63 @@ theorem ackWalk_violation_iff (lo hi : Int) (ps : List Pkt) : ∀ (n : Int) (cc 
           · exact step cc ma
           · exact step _ _
 
-/-- **`receiveAckRange` returns PROTOCOL_VIOLATION iff the range reaches beyond every number used
-so far (`end > nextNum`) or — after clamping its start to the oldest tracked packet — covers a
-packet number recorded as skipped (`Unsent`).** -/
+/-- **`receiveAckRange` returns PROTOCOL_VIOLATION iff the range covers a remembered skipped
+number, or reaches beyond every number used so far (`end > nextNum`), or — after clamping its
+start to the oldest tracked packet — covers a packet recorded as `Unsent`.** -/
 theorem receiveAckRange_violation_iff (l : Loss) (sp : Nat) (a b : Int)
     (hc : Consec (l.space sp).start (l.space sp).pkts) :
     (l.receiveAckRange sp a b).2.2 = true ↔
-      (b > (l.space sp).nextNum ∨
+      ((∃ k ∈ (l.space sp).skipped, a ≤ k ∧ k < b) ∨ b > (l.space sp).nextNum ∨
        ∃ p ∈ (l.space sp).pkts, p.state = .unsent ∧ max a (l.space sp).start ≤ p.num ∧ p.num < b) := by
   unfold Loss.receiveAckRange
   simp only
   have hst : (if a < (l.space sp).start then (l.space sp).start else a) = max a (l.space sp).start := by
     split <;> omega
   rw [hst]
-  by_cases h1 : b > (l.space sp).nextNum
-  · simp [h1]
-  · by_cases h2 : max a (l.space sp).start ≥ b
-    · simp only [h1, h2, if_true, if_false, Bool.false_eq_true, false_or, false_iff]
-      rintro ⟨p, _, _, h3, h4⟩; omega
-    · simp only [h1, h2, if_false, false_or]
-      exact ackWalk_violation_iff _ _ _ _ _ _ hc
+  by_cases h0 : ((l.space sp).skipped.any fun k => decide (a ≤ k ∧ k < b)) = true
+  · simp only [h0, if_true, true_iff]
+    left
+    obtain ⟨k, hk, hd⟩ := List.any_eq_true.1 h0
+    exact ⟨k, hk, by simpa using hd⟩
+  · have hno : ¬ ∃ k ∈ (l.space sp).skipped, a ≤ k ∧ k < b := by
+      rintro ⟨k, hk, h1, h2⟩
+      exact h0 (List.any_eq_true.2 ⟨k, hk, by simp [h1, h2]⟩)
+    simp only [h0, Bool.false_eq_true, if_false, hno, false_or]
+    by_cases h1 : b > (l.space sp).nextNum
+    · simp [h1]
+    · by_cases h2 : max a (l.space sp).start ≥ b
+      · simp only [h1, h2, if_true, if_false, Bool.false_eq_true, false_or, false_iff]
+        rintro ⟨p, _, _, h3, h4⟩; omega
+      · simp only [h1, h2, if_false, false_or]
+        exact ackWalk_violation_iff _ _ _ _ _ _ hc
 
-/-- The literal reading of the third clause of C25, over histories with the ghost record of
-skipped numbers: "an ACK range is rejected iff it acknowledges a never-sent number or a skipped
-number". -/
-def AckViolationStatement : Prop :=
-  ∀ (mds : Int) (ops : List C26.Op) (sp : Nat) (a b : Int), (∀ o ∈ ops, o.SpaceOK) → sp < 3 → 0 ≤ a → a ≤ b →
-    (((grun (Loss.init mds) {} ops).1.receiveAckRange sp a b).2.2 = true ↔
-      (b > ((grun (Loss.init mds) {} ops).1.space sp).nextNum ∨
-       ∃ k ∈ (grun (Loss.init mds) {} ops).2.k sp, a ≤ k ∧ k < b))
-
-/-- The excluded region: the skipped number's record was already dropped from the sent list
-(`clean()` removes every non-`Sent` entry from the head, `Unsent` ones included). -/
-def Forgotten (s : Space) (k : Int) : Prop := k < s.start
-
-/-- **holds_partial**: with skipped numbers whose record is still tracked, the clause holds for
-every history. -/
-theorem ack_violation_holds_partial (mds : Int) (ops : List C26.Op) (sp : Nat) (a b : Int)
+/-- **The third clause of C25, for every history** (ghost record of the numbers skipped since
+the keys of the space were last discarded): an ACK range is rejected with PROTOCOL_VIOLATION iff
+it acknowledges a number that was never used (`end > nextNum`) or a skipped number — also after
+the sent-packet list has dropped the skip record. -/
+theorem ack_violation_holds (mds : Int) (ops : List C26.Op) (sp : Nat) (a b : Int)
     (hv : ∀ o ∈ ops, o.SpaceOK) (hsp : sp < 3) :
     (((grun (Loss.init mds) {} ops).1.receiveAckRange sp a b).2.2 = true ↔
       (b > ((grun (Loss.init mds) {} ops).1.space sp).nextNum ∨
-       ∃ k ∈ (grun (Loss.init mds) {} ops).2.k sp,
-         ¬ Forgotten ((grun (Loss.init mds) {} ops).1.space sp) k ∧ a ≤ k ∧ k < b)) := by
+       ∃ k ∈ (grun (Loss.init mds) {} ops).2.k sp, a ≤ k ∧ k < b)) := by
   have hi := finv_grun ops _ _ hv (finv_init mds) sp hsp
   generalize (grun (Loss.init mds) {} ops).1 = l at hi ⊢
   generalize (grun (Loss.init mds) {} ops).2 = g at hi ⊢
   rw [receiveAckRange_violation_iff l sp a b hi.consec]
-  unfold Forgotten
   constructor
-  · rintro (h | ⟨p, hp, hu, h1, h2⟩)
+  · rintro (⟨k, hk, h1, h2⟩ | h | ⟨p, hp, hu, h1, h2⟩)
+    · exact Or.inr ⟨k, (hi.sk k).1 hk, h1, h2⟩
     · exact Or.inl h
-    · exact Or.inr ⟨p.num, hi.unsent_k p hp hu, by omega, by omega, h2⟩
-  · rintro (h | ⟨k, hk, h0, h1, h2⟩)
-    · exact Or.inl h
-    · rcases hi.k_unsent k hk with ⟨p, hp, hpn, hpu⟩ | hlt
-      · exact Or.inr ⟨p, hp, hpu, by omega, by omega⟩
-      · omega
+    · exact Or.inr ⟨p.num, hi.unsent_k p hp hu, by omega, h2⟩
+  · rintro (h | ⟨k, hk, h1, h2⟩)
+    · exact Or.inr (Or.inl h)
+    · exact Or.inl ⟨k, (hi.sk k).2 hk, h1, h2⟩
 
-/-- **full_false**: the literal statement fails on the code as it is. Send 0, skip 1, send 2;
-ACK [0,1) (packet 0 acked; `receiveAckEnd` cleans 0 *and the skip record 1* off the list);
-a later ACK [0,3), which covers the skipped number 1, is accepted. -/
-theorem ack_violation_full_false : ¬ AckViolationStatement := by
-  intro h
-  have := h 1200
-    [C26.Op.send 0 100 true true 0, C26.Op.skip 0 0, C26.Op.send 0 100 true true 0, C26.Op.ackRange 0 0 1, C26.Op.ackEnd 0 1 1 none 1]
-    0 0 3 (by intro o ho; simp at ho; rcases ho with rfl | rfl | rfl | rfl | rfl <;> simp [C26.Op.SpaceOK]) (by omega) (by omega) (by omega)
-  revert this
-  decide
+/-- The former counterexample (send 0, skip 1, send 2; ACK [0,1) cleans 0 and the skip record;
+ACK [0,3)) is now rejected. -/
+example : ((grun (Loss.init 1200) {}
+    [C26.Op.send 0 100 true true 0, C26.Op.skip 0 0, C26.Op.send 0 100 true true 0, C26.Op.ackRange 0 0 1,
+     C26.Op.ackEnd 0 1 1 none 1]).1.receiveAckRange 0 0 3).2.2 = true := by decide
 
 end AckRange
 
